@@ -37,7 +37,7 @@ fn family(thorough: bool) -> Vec<u64> {
     }
     if thorough {
         // every set of three squares from a 24-square spread (2024 sets) and their complements
-        let spread: Vec<u8> = (0..64u8).filter(|s| (s * 7 + s / 8) % 8 < 3).collect();
+        let spread: Vec<u8> = (0..64u8).filter(|&s| (s as u32 * 7 + s as u32 / 8) % 8 < 3).collect();
         for a in 0..spread.len() {
             for b in a + 1..spread.len() {
                 for c in b + 1..spread.len() {
